@@ -1,7 +1,7 @@
 """C12 — Borda orders elements by mean positional score, per the documented variants."""
 from .. import spaces, refmodel, harness
 from ..harness import Ctx, watchdog
-from ..lib import ds_shards, ds_expected, tt, scheme_of
+from ..lib import ds_shards, ds_expected, tt, scheme_of, EarlierResults
 
 ID = 'C12'
 _lib = {}
@@ -52,7 +52,7 @@ def init_worker(cfg):
 
 
 def check_case(ctx, ds, lname, n, schemes, flags=((True, False), (False, False), (True, True)), dataset_obj=None,
-               alg_objs=None, origin=None):
+               alg_objs=None, origin=None, scheme_objs=None):
     from ..lib import mk_dataset, mk_scheme, labels_for, Back, wellformed
     labels = labels_for(lname, n)
     universe = spaces.universe_of(ds)
@@ -61,7 +61,7 @@ def check_case(ctx, ds, lname, n, schemes, flags=((True, False), (False, False),
     complete = spaces.is_complete(ds)
     for s in schemes:
         fam = family_of(s)
-        scheme = mk_scheme(s)
+        scheme = scheme_objs[s] if scheme_objs and s in scheme_objs else mk_scheme(s)
         for ubi in (False, True):
             if fam is None and not complete:
                 want = None
@@ -94,6 +94,8 @@ def check_case(ctx, ds, lname, n, schemes, flags=((True, False), (False, False),
                     ctx.violation('borda-accepts-incomplete-data-with-foreign-scheme', case,
                                   str(c.consensus_rankings), 'ScoringSchemeNotHandledException')
                     continue
+                _ = c.kemeny_score
+                _lib.setdefault('earlier', EarlierResults()).check_and_remember(ctx, ('borda', ubi, reused), c, case)
                 if len(c.consensus_rankings) != 1:
                     ctx.violation('borda-number-of-rankings', case, len(c.consensus_rankings), 1)
                     continue
@@ -130,9 +132,11 @@ def sequences(ctx, ds, lname, n):
     """one long-lived object per variant serving, for EVERY dataset of the shard, the scheme sequence induced,
     unifying, unifying p=.5, induced p=.5, unifying, pseudo (refused on incomplete data), induced: the answer must not
     depend on what the object was asked before (on this dataset or the previous one)."""
+    from ..lib import mk_dataset, labels_for
     algs = {ubi: _lib.setdefault(('seq', ubi), _lib['A'](use_bucket_id=ubi)) for ubi in (False, True)}
+    d = mk_dataset(ds, labels_for(lname, n))      # ONE dataset object for the whole sequence
     for s in SEQ:
-        check_case(ctx, ds, lname, n, [s], flags=((True, True),), alg_objs=algs, origin=['sequence', 'see SEQ'])
+        check_case(ctx, ds, lname, n, [s], flags=((True, True),), alg_objs=algs, origin=['sequence', 'see SEQ'], dataset_obj=d)
         ctx.count('executions_in_scheme_sequences_on_one_object')
 
 
@@ -143,15 +147,17 @@ def histories(ctx, ds0, lname, n, schemes):
     for what, after in mutation_histories(ds0):
         for s in schemes:
             algs = {ubi: _lib['A'](use_bucket_id=ubi) for ubi in (False, True)}
+            so = mk_scheme(s)
 
             def warm(dd):
                 for a in algs.values():
                     try:
-                        a.compute_consensus_rankings(dd, mk_scheme(s), True)
+                        a.compute_consensus_rankings(dd, so, True)
                     except Exception:
                         pass
             d = prepare_mutated(ds0, labels, what, warm=warm)
-            check_case(ctx, after, lname, n, [s], flags=((True, True),), dataset_obj=d, alg_objs=algs, origin=[ds0, what])
+            check_case(ctx, after, lname, n, [s], flags=((True, True),), dataset_obj=d, alg_objs=algs, origin=[ds0, what],
+                       scheme_objs={s: so})
             ctx.count('executions_after_run_mutate_on_the_same_objects')
 
 
